@@ -175,6 +175,10 @@ class RecSubscriber:
     def on_error(self, exception):
         self._rec('on_error', err='%s: %s' % (type(exception).__name__, str(exception)[:120]))
         self.terminal = True
+        retry = self.script.get('retry_on_error')
+        if retry is not None:
+            # an application that falls back / retries from inside the error callback
+            start_interaction(self.world, self.ep, retry)
 
     def _rec(self, cb, **kw):
         self.world.rec('sub', ep=self.ep, iid=self.iid, role=self.role, cb=cb, **kw)
@@ -364,7 +368,15 @@ def make_publisher(world, ep, iid, role, direction, script):
         rec('exhausted')
 
     pacing = timedelta(seconds=script.get('pacing', 0) or 0)
-    kwargs = dict(delay_between_messages=pacing, on_cancel=lambda: rec('on_cancel'),
+
+    def on_cancel():
+        rec('on_cancel')
+        if script.get('on_cancel_raises'):
+            # the application's own callback fails at cancel time
+            world.fault_fired('buggify_on_cancel')
+            raise AppError('on_cancel of %d failed' % iid)
+
+    kwargs = dict(delay_between_messages=pacing, on_cancel=on_cancel,
                   on_complete=lambda: rec('on_complete'))
     if src == 'gen':
         pub = StreamFromGenerator(items, **kwargs)
